@@ -120,6 +120,13 @@ def gen_history(rng, hid, confirm=False):
                              "permute": (b > 0 and rng.random() < 0.5),
                              # the other documented entry point of an append: ParquetFile.write_row_groups
                              "via": ("write_row_groups" if (b > 0 and not h["index"] and rng.random() < 0.3) else "write")})
+    dtcols = [c for c in cols if c["kind"] in ("dt_ms", "dt_us", "dt_ns", "dttz_us", "dttz_ns")]
+    if dtcols and not confirm and rng.random() < 0.5:
+        # the same column in ANOTHER datetime unit in one appended batch: the library may refuse it (another dtype), but if it ACCEPTS
+        # the append the rows must read back intact (whole microseconds are generated for ns data half of the time)
+        b = rng.choice(h["batches"][1:])
+        b["dt_unit"] = {c["name"]: rng.choice([u for u in ("ms", "us", "ns") if u != c["kind"].split("_")[1]]) for c in dtcols}
+        b["dt_whole_us"] = rng.random() < 0.5
     if not h["index"] and not confirm and rng.random() < 0.3:
         # from this step on EVERY append of the history goes through ONE long-lived ParquetFile handle (pf.write_row_groups), which is
         # also read after each of them: state the handle keeps about the dataset has to follow what it wrote itself
@@ -177,7 +184,12 @@ def build_batch(h, i):
             data[c["name"]] = pd.Series(pd.Categorical.from_codes(codes, categories=lab), name=c["name"])
         else:
             cs = dict(c, seed=e["seed"], nulls=e["nulls"])
-            data[c["name"]] = F.col_values(cs, n)
+            if c["name"] in (b.get("dt_unit") or {}):
+                cs["kind"] = c["kind"].split("_")[0] + "_" + b["dt_unit"][c["name"]]
+            col = F.col_values(cs, n)
+            if c["name"] in (b.get("dt_unit") or {}) and b.get("dt_whole_us") and cs["kind"].endswith("_ns"):
+                col = col.dt.floor("us")
+            data[c["name"]] = col
     prng = random.Random(b["pseed"])
     if "pk" in h["partition_on"]:
         data["pk"] = pd.Series(np.array([prng.choice([0, 1, 2]) for _ in range(n)], dtype="int64"))
@@ -619,6 +631,13 @@ def run_history(arg):
                         st["tb"] = traceback.format_exc()[-800:]
                 st["trace"] = rec.trace if not simple else [c if c[0] != "write" else ("write", c[1], b"") for c in rec.trace]
                 st["refs_before"] = refs_b
+                if raised and h["batches"][i].get("dt_unit"):
+                    # a column in another datetime unit is another dtype: refusing the append is legitimate (the history ends here)
+                    st["raised"] = raised
+                    st["mixed_unit"] = "refused"
+                    out["outcome"] = "mixed-unit-append-refused"
+                    out["steps"].append(st)
+                    break
                 if raised:
                     # every generated batch has the columns and dtypes of the first write: the append has to be accepted
                     # (what a refused append leaves behind is C18's subject); the history ends here
@@ -839,6 +858,9 @@ def run(ctx):
             if i > 0:
                 ctx.count("entry_point", h["batches"][i].get("via", "write") + ("+permuted columns" if h["batches"][i].get("permute") else ""))
             short = {"history": h["id"], "scheme": h["scheme"], "step": i}
+            if i > 0 and h["batches"][i].get("dt_unit"):
+                ctx.count("datetime_column_appended_in_another_unit", "%s: %s" % (
+                    ",".join(sorted(set(h["batches"][i]["dt_unit"].values()))), "refused" if st.get("mixed_unit") else "accepted"))
             if st.get("dropped_summary"):
                 ctx.count("append_target_without_summary_file", "%s deleted before the append (%s)" % (st["dropped_summary"], h["scheme"]))
             if "raised" in st:
